@@ -14,6 +14,10 @@ Values: the generic transform never computes with values, it only moves them and
 zero, so floats travel as their IEEE-754 bit patterns (0.0 and -0.0 -> 0): ANY function output is
 representable.  norm divides: its cases use dyadic values scaled by 64 and exact rationals in the
 model; the model's numerator/denominator are divided in binary64 and compared for equality."""
+import os
+import shutil
+import tempfile
+
 import numpy as np
 import scipy.stats
 
@@ -31,7 +35,7 @@ RULE = ('tables 1..5 x 1..5, non-square and asymmetric with probability > 0.8 (v
         '(v/v.sum(), reversed, cumsum, argsort, times the number of values, minus the minimum, a broadcast scalar), using the id, '
         'using the metadata, a wrong-length result; rankdata with the five tie methods; norm; pa (incl. negative values, magnitudes down to 5e-324 and norm-then-pa on vectors '
         'as uneven as 1 : 3e11, travelling as opaque non-zero codes); an element-wise function '
-        'along both axes; _normalize_table (-r/-p/none/both)}; the arrays handed to the kernel and every call are recorded and '
+        'along both axes; _normalize_table (-r/-p/none/both) called directly and through the real click command `biom normalize-table` on a JSON / HDF5 file (in process, output file read back)}; the arrays handed to the kernel and every call are recorded and '
         'replayed through the kernel-level model, and for in-place calls the table\'s own arrays through the representation-'
         'level model; thorough adds every 2x3 matrix over {0,1,-2} x both start formats x both axes x three functions; '
         'non-trivial = a table with a zero cell and a non-zero cell and at least 2 vectors on the axis; distinct by case hash')
@@ -203,6 +207,47 @@ def _snap(t):
     return T.norm_snap(T.snapshot(t))
 
 
+def _is_cli(c):
+    return c.get('via', 'function') != 'function'
+
+
+def _run_cli(c, t):
+    """`biom normalize-table -i inp -o out [-r] [-p] -a axis` through the real click group, in process
+    (so the spy still sees the kernel).  The group's close callback closes fd 1: the standard
+    descriptors are saved and restored around the call.
+    -> (snapshot of the table the command read, result snapshot | None, exception | None)"""
+    import h5py
+    from biom import load_table
+    from biom.cli import cli
+    d = tempfile.mkdtemp(prefix='biomv-c13-')
+    try:
+        inp, out = os.path.join(d, 'in.biom'), os.path.join(d, 'out.biom')
+        if c['via'] == 'cli_json':
+            with open(inp, 'w') as f:
+                f.write(t.to_json('harness'))
+        else:
+            with h5py.File(inp, 'w') as f:
+                t.to_hdf5(f, 'harness')
+        base = _snap(load_table(inp))
+        args = ['normalize-table', '-i', inp, '-o', out] + (['-r'] if c['rel'] else []) + (['-p'] if c['pa'] else []) \
+            + ['-a', c['axis']]
+        saved = [os.dup(k) for k in (0, 1, 2)]
+        try:
+            try:
+                cli.main(args=args, standalone_mode=False)
+                err = None
+            except BaseException as e:      # click may raise SystemExit / Abort
+                err = e
+        finally:
+            for k, fd in enumerate(saved):
+                os.dup2(fd, k)
+                os.close(fd)
+        res = None if err is not None else _snap(load_table(out))
+        return base, res, err
+    finally:
+        shutil.rmtree(d, ignore_errors=True)
+
+
 def _op(c, t):
     k = c['kind']
     if k == 'transform':
@@ -267,19 +312,25 @@ def _run_impl(c):
         base = _snap(t)
     pre = _arrays(t.matrix_data)
     with Spy() as sp:
-        try:
-            r = _op(c, t)
-            res = ['ok', _snap(r)]
-            same_obj = r is t
-            post = _arrays(r.matrix_data)
-        except Exception as e:
-            r, res, same_obj, post = None, ['err', T.err_code(e)], None, None
+        if _is_cli(c):
+            base, rs, err = _run_cli(c, t)
+            res = ['ok', rs] if err is None else ['err', T.err_code(err) if isinstance(err, Exception) else 9]
+            same_obj, post = None, None
+        else:
+            try:
+                r = _op(c, t)
+                res = ['ok', _snap(r)]
+                same_obj = r is t
+                post = _arrays(r.matrix_data)
+            except Exception as e:
+                r, res, same_obj, post = None, ['err', T.err_code(e)], None, None
     run = sp.runs[0] if sp.runs else None
     obs = {'result': res, 'layout_ok': True}
     failed = res[0] == 'err'
-    if not (failed and c.get('inplace') and run is not None):
-        obs['receiver'] = _snap(t)
-    obs['returned_receiver'] = same_obj
+    if not _is_cli(c):
+        if not (failed and c.get('inplace') and run is not None):
+            obs['receiver'] = _snap(t)
+        obs['returned_receiver'] = same_obj
     if run is not None:
         obs['calls'] = None if failed else run['calls']
         obs['kernel'] = {'indptr': run['before']['indptr'], 'indices': run['before']['indices'], 'data': run['after'],
@@ -392,13 +443,17 @@ def decode(tree, c):
     if k == 'normalize':
         run = st['run']
         if tree[0] == -1:
-            return {'result': ['err', tree[1]], 'layout_ok': True, 'receiver': sc, 'returned_receiver': None}
-        if tree[0] == 0:
-            snap = dict(sc, mat=_unq(tree[1], c['spec']))
+            o = {'result': ['err', tree[1]], 'layout_ok': True, 'receiver': sc, 'returned_receiver': None}
         else:
-            snap = T.norm_snap(cd.untable(tree[1]))
-        return {'result': ['ok', snap], 'layout_ok': True, 'receiver': snap, 'returned_receiver': True,
-                'calls': run['calls'], 'kernel': st_kernel(st), 'shim_agrees': True}
+            if tree[0] == 0:
+                snap = dict(sc, mat=_unq(tree[1], c['spec']))
+            else:
+                snap = T.norm_snap(cd.untable(tree[1]))
+            o = {'result': ['ok', snap], 'layout_ok': True, 'receiver': snap, 'returned_receiver': True,
+                 'calls': run['calls'], 'kernel': st_kernel(st), 'shim_agrees': True}
+        if _is_cli(c):           # the command works on a table of its own: no receiver to observe
+            o.pop('receiver'), o.pop('returned_receiver')
+        return o
     top, kern = tree[0], tree[1]
     rep = tree[2] if len(tree) > 2 else None
     if k == 'pa':
@@ -516,10 +571,16 @@ def oracle(c, obs):
     r = res[1]
     inplace = True if k == 'normalize' else c['inplace']
     _untouched(c, r, fails)
-    if obs['returned_receiver'] != inplace:
-        fails.append('inplace=%s but the returned table %s the receiver' % (inplace, 'is' if obs['returned_receiver'] else 'is not'))
-    if obs['receiver'] != (r if inplace else sc):
-        fails.append('inplace=%s: the receiver afterwards is not %s' % (inplace, 'the result' if inplace else 'unchanged'))
+    if _is_cli(c):
+        if not c.get('prenorm'):
+            want_in = canon(T.norm_snap(T.spec_content(spec)))
+            if any(sc[key] != want_in[key] for key in ('oids', 'sids', 'mat')):
+                fails.append('the table read from the input file is not the table that was written')
+    else:
+        if obs['returned_receiver'] != inplace:
+            fails.append('inplace=%s but the returned table %s the receiver' % (inplace, 'is' if obs['returned_receiver'] else 'is not'))
+        if obs['receiver'] != (r if inplace else sc):
+            fails.append('inplace=%s: the receiver afterwards is not %s' % (inplace, 'the result' if inplace else 'unchanged'))
     axis = 'sample' if k == 'pa' or (k == 'normalize' and c['pa']) else c['axis']
     _check_calls(c, obs, axis, fails)
     R = np.array(r['mat'], dtype=float).reshape(M.shape)
@@ -584,6 +645,12 @@ def oracle(c, obs):
 
 
 # ---------------------------------------------------------------- generation
+def _cli_md(spec):
+    """metadata kinds whose file round trip is not this property's business are replaced by plain strings"""
+    spec['omd'] = None if spec['omd'] is None else [{'g': 'g%d' % (i % 3)} for i in range(len(spec['oids']))]
+    spec['smd'] = None if spec['smd'] is None else [{'g': 'g%d' % (i % 2)} for i in range(len(spec['sids']))]
+
+
 def gen_case(rng, kind=None, spec=None):
     kind = kind or rng.choice(['transform'] * 9 + ['rank'] * 4 + ['norm'] * 3 + ['pa'] * 2 + ['axis_indep'] * 2 + ['normalize'] * 2)
     if spec is None:
@@ -603,6 +670,10 @@ def gen_case(rng, kind=None, spec=None):
     c = {'kind': kind, 'spec': spec, 'axis': rng.choice(['observation', 'sample']), 'inplace': kind == 'normalize' or rng.random() < 0.5}
     if kind == 'normalize':
         c['rel'], c['pa'] = rng.choice([(True, False), (True, False), (False, True), (False, True), (False, False), (True, True)])
+        # the click command itself (biom normalize-table), reading a JSON / HDF5 file
+        c['via'] = rng.choice(['function', 'function', 'function', 'cli_json', 'cli_hdf5'])
+        if c['via'] != 'function':
+            _cli_md(spec)
     if kind == 'pa' or (kind == 'normalize' and not c['rel']):
         # presence means "non-zero", however small: tiny magnitudes, denormals, negative tiny values,
         # and relative abundances of very uneven vectors (norm, then pa)
@@ -636,6 +707,18 @@ def gen(rng, tier):
     n = 650 if tier == 'quick' else 6500
     for _ in range(n):
         yield gen_case(rng)
+    # the command line entry point, systematically: both axes x -r / -p x JSON / HDF5 input
+    for via in ('cli_json', 'cli_hdf5'):
+        for axis in ('observation', 'sample'):
+            for rel, pa in ((True, False), (False, True)):
+                for _ in range(1 if tier == 'quick' else 12):
+                    c = gen_case(rng, kind='normalize')
+                    c.update(via=via, axis=axis, rel=rel, pa=pa)
+                    c.pop('prenorm', None)
+                    _cli_md(c['spec'])
+                    if rel:
+                        c['spec']['mat'] = [[float(abs(round(v * 64)) / 64) if abs(v) >= 1.0 / 64 else 0.0 for v in row] for row in c['spec']['mat']]
+                    yield c
     if tier == 'thorough':
         for c in exhaustive_small():
             yield c
@@ -660,6 +743,8 @@ def classify(c):
         tags.append('norm-then-op')
     if M.size and ((M != 0) & (np.abs(M) <= 1e-8)).any():
         tags.append('tiny-magnitudes')
+    if c['kind'] == 'normalize':
+        tags.append('via:' + c.get('via', 'function'))
     for key in ('fn', 'method'):
         if key in c:
             tags.append('%s:%s' % (key, c[key]))
